@@ -104,7 +104,7 @@ class PLCNetwork(NetworkGenerator):
         # overall sequence is even
         while t % 2 != 0:
             # pick a node at random
-            i = rng.integers(0, len(ns) - 1)
+            i = rng.integers(0, len(ns))
 
             # remove it from the sequence and from the total
             t -= ns[i]
